@@ -27,7 +27,7 @@ theorem finish_exact (s t : St) (h : Step s t) (c : CInv s) (j : Nat) (l l' : Th
     refine Or.inl ⟨rfl, rfl, rfl, ?_, ?_⟩
     · exact no_holder _ ct rfl
     · intro a ha; simp only [List.getElem?_set]; grind
-  | handoff i2 j2 w2 l2 m2 r2 hj2 hi2 hp2 hq2 =>
+  | handoff i2 j2 w2 l2 m2 r2 g2 hj2 hi2 hp2 hq2 hc2 =>
     have hij : i2 ≠ j2 := by intro h; subst h; rw [hi2] at hj2; cases hj2; rw [hp2] at hq2; cases hq2
     have hil := (List.getElem?_eq_some_iff.mp hi2).1
     have hjj : j2 = j := by
@@ -44,10 +44,11 @@ theorem finish_exact (s t : St) (h : Step s t) (c : CInv s) (j : Nat) (l l' : Th
     · intro a x hx hh
       exact holder_unique _ ct a i2 x w2.asLeader hx hti hh (by simp [Thread.asLeader, holds])
     · intro a h1 h2; simp only [set2, List.getElem?_set]; grind
+  | releaseLost j2 l2 m2 r2 hj2 hp2 hc2 hr2 => exact absurd c.cfgH (by simp [hc2])
   | _ =>
     exfalso
     simp only [set2, List.getElem?_set] at hj'
-    grind [Thread.setPc, Thread.asLeader, Thread.unlock]
+    grind [Thread.setPc, Thread.asLeader, Thread.unlock, Thread.grouped, Thread.journalled, accept_pc]
 
 /-! ## termination -/
 
@@ -72,7 +73,7 @@ theorem stepsN_measure {n : Nat} {s t : St} (h : StepsN n s t) (c : CInv s) :
     omega
 
 theorem measure_init (s : St) (h : Init s) : measure s = 14 * s.ws.length := by
-  obtain ⟨_, _, hw⟩ := h
+  obtain ⟨_, _, _, hw⟩ := h
   unfold measure
   generalize s.ws = ws at hw
   induction ws with
